@@ -1,7 +1,9 @@
 package throttler
 
-
-func Verif_C43_twoWorkers() {
+// Two or three workers run the protocol "CanProcess; StartProcessing; work; EndProcessing" on one real
+// NumGoRoutinesThrottler. Scheduling points (verifYield) sit before every throttler call, so every
+// interleaving of the atomic operations is explored.
+func Verif_C43_workers() {
 	max := verifI32("max")
 	verifAssume(max >= 1 && max <= 1000)
 	th, _ := NewNumGoRoutinesThrottler(max)
@@ -9,19 +11,32 @@ func Verif_C43_twoWorkers() {
 	verifAssume(initial >= 0 && initial <= max)
 	th.counter = initial // tasks admitted earlier and still running
 	running := initial
+	inWindow := 0
+	overlap := false
 	worker := func() {
+		verifYield()
 		if th.CanProcess() {
+			if inWindow > 0 {
+				overlap = true
+			}
+			inWindow++
+			verifYield()
 			th.StartProcessing()
+			inWindow--
 			running++
+			// known finding C43-toctou: another worker passed CanProcess while this one was between
+			// CanProcess and StartProcessing
+			verifKnown("C43-toctou", overlap)
 			verifAssert(running <= max, "more than max tasks running")
 			verifYield()
 			running--
 			th.EndProcessing()
 		}
 	}
-	verifExplore()
-	go worker()
-	go worker()
+	n := verifParam("workers")
+	for i := 0; i < n; i++ {
+		verifGo(worker)
+	}
 	verifJoin()
 	verifAssert(th.counter == initial, "counter restored")
 	verifReach("end")
